@@ -9,6 +9,14 @@ import CatVerif.Proofs.Steps.Leaves
 namespace Cat
 open St
 
+
+/-- the printing primitive — refuse unless the text and its terminator fit behind the cursor, copy, advance, terminate —
+is the transliteration of `print_nstring_to_buf` with `get_left_buffer_space_by_fsm`, `get_current_buffer_by_fsm` and
+`move_position_by_fsm` (translator item T22; the first line of the generated text is the model's ghost check that the
+`size_t` subtraction does not wrap) -/
+theorem C03_print_generated (D : Desc) (s : St) (f : Fsm) (x : List Byte) : printN D s f x = Gen.print_nstring_to_buf D s f x :=
+  printN_generated D s f x
+
 /-- the counters this property's theorems keep as unbounded natural numbers (`var_num`, `buf_size`, `cmd_group_num`, `unsolicited_buf_size`, `cmd_num`, `commands_num`, `index`, `length`, `partial_cntr`, `position`, `write_size`, `index`, `position`, `unsolicited_cmd_buffer_head`, `unsolicited_cmd_buffer_items_count`, `unsolicited_cmd_buffer_tail`, `data_size`) are declared
 `size_t` in `cat.h` — 64 bits on the target, so they cannot wrap on any buffer, table or line that exists; the widths
 are read from the struct declarations on every run (translator item T21) -/
@@ -30,12 +38,5 @@ theorem C03_counters_unbounded :
     Gen.width_uns_unsolicited_cmd_buffer_items_count = 64 ∧
     Gen.width_uns_unsolicited_cmd_buffer_tail = 64 ∧
     Gen.width_var_data_size = 64 := by decide
-
-/-- the printing primitive — refuse unless the text and its terminator fit behind the cursor, copy, advance, terminate —
-is the transliteration of `print_nstring_to_buf` with `get_left_buffer_space_by_fsm`, `get_current_buffer_by_fsm` and
-`move_position_by_fsm` (translator item T22; the first line of the generated text is the model's ghost check that the
-`size_t` subtraction does not wrap) -/
-theorem C03_print_generated (D : Desc) (s : St) (f : Fsm) (x : List Byte) : printN D s f x = Gen.print_nstring_to_buf D s f x :=
-  printN_generated D s f x
 
 end Cat
